@@ -114,6 +114,13 @@ def gen_case(seed, tier='quick', max_geos=None, degenerate=False):
       if r4.random() < 0.5:
         par[k] = r4.choice(vals)
     case['non_default_statistics'] = True
+  if n >= 2 and 'zero_sum_geo' not in case and r4.random() < 0.12:
+    # a geo that enters the panel late: it has no rows at all on the first k dates (the canonical frame holds zeros there)
+    g = r4.randrange(n)
+    k = r4.choice([nd // 3, nd - par['n_test'], nd - par['n_test'] + 1, nd // 2])
+    k = max(1, min(nd - 1, k))
+    case['rows'][g] = [0.0] * k + case['rows'][g][k:]
+    case['missing_head'] = [g, k]
   if r3.random() < 0.12:
     # integer parameters given as integer-valued floats (accepted by the parameter class)
     which = r3.sample(['n_test', 'n_geos_max', 'n_pretest_max', 'n_designs', 'treatment_geos_range', 'control_geos_range'], r3.randint(1, 3))
@@ -133,9 +140,12 @@ def frame_of(case):
   recs = []
   n = len(case['rows'])
   t0 = pd.Timestamp('2020-01-01')
+  mh = case.get('missing_head') or [None, 0]
   for g in range(n):
     gid = (g + case.get('id_base', 1)) if case.get('int_ids') else str(g + case.get('id_base', 1))
     for t, v in enumerate(case['rows'][g]):
+      if g == mh[0] and t < mh[1] and v == 0.0:
+        continue                       # no row: the geo was not yet reported
       recs.append({'geo': gid, 'date': t0 + pd.Timedelta(days=t), 'response': v})
   df = pd.DataFrame(recs)
   if case.get('int_response') and all(float(v).is_integer() for v in df['response']):
@@ -341,6 +351,75 @@ def documented_score(diag, budget_hi=None):
     last = np.float64(1.0) / (imp / np.float64(budget_hi)) if budget_hi is not None else np.float64(1.0) / imp
   return (int(bool(diag.corr_test)), int(bool(diag.aatest.test_ok)), int(bool(diag.bbtest.test_ok)), int(bool(diag.dwtest.test_ok)),
           float(round(np.float64(diag.corr), 2)), float(last))
+
+
+def documented_tests(x, y, par):
+  """The four diagnostic tests of a design recomputed from its two series by the harness itself (documented definitions:
+  correlation >= min_corr; A/A test = the TBR interval of the last n_test points predicted from the earlier ones contains 0,
+  or a significant result is improbable; Brownian-bridge test on the cumulated standardised residuals; Durbin-Watson
+  statistic inside its range).  The thresholds (Brownian-bridge coefficient, Durbin-Watson range, A/A probability) are
+  read from the class as the constants they are.  Returns ([corr, aa, bb, dw] with None where the outcome sits on a
+  threshold or is undefined by the definition, details)."""
+  import numpy as np
+  from scipy import stats
+  from matched_markets.methodology import tbrmmdiagnostics as D
+  x, y = np.asarray(x, dtype=float), np.asarray(y, dtype=float)
+  n = len(y)
+
+  def ols(xs, ys):
+    if len(xs) < 3 or np.all(xs == xs[0]):
+      return float('nan'), float('nan')
+    r = stats.linregress(xs, ys)
+    return float(r.intercept), float(r.slope)
+  near = lambda a, b: abs(a - b) <= 1e-9 * max(1.0, abs(a), abs(b))
+  proto = D.TBRMMDiagnostics(y, par)
+  a, b = ols(x, y)
+  resid = y - a - b * x
+  sigma = float(np.std(resid, ddof=2))
+  # correlation
+  corr = float(np.corrcoef(x, y)[0, 1])
+  t_corr = None if (corr != corr and False) else (None if near(corr, par.min_corr) else bool(corr >= par.min_corr))
+  # Brownian bridge
+  if a != a:
+    t_bb = False
+  else:
+    k = np.arange(1, n)
+    bounds = D.TBRMMDiagnostics._bb_bound * np.sqrt(k * (1.0 - k / float(n)))
+    cum = np.abs(np.cumsum(resid / sigma)[:-1])
+    t_bb = None if any(near(c, bd) for c, bd in zip(cum, bounds)) else (not bool(np.any(cum > bounds)))
+  # Durbin-Watson
+  d = resid[1:] - resid[:-1]
+  with np.errstate(all='ignore'):
+    dw = float(np.sum(d ** 2) / np.sum(resid ** 2))
+  lo, hi = proto._dw_range
+  t_dw = None if (near(dw, lo) or near(dw, hi)) else bool(lo < dw < hi)
+  # A/A
+  nt = int(par.n_test)
+  npre = n - nt
+  if npre < 3:
+    t_aa = 'undefined'
+  else:
+    xs, ys = x[:npre], y[:npre]
+    a1, b1 = ols(xs, ys)
+    r1 = ys - a1 - b1 * xs
+    s1 = float(np.std(r1, ddof=2))
+    dx, dy = float(x[npre:].mean() - xs.mean()), float(y[npre:].mean() - ys.mean())
+    est = nt * (dy - b1 * dx)
+    with np.errstate(all='ignore'):
+      scale = nt * s1 * np.sqrt((1 + dx ** 2 / np.var(xs, ddof=0)) / npre + 1.0 / nt)
+    cihw = float(stats.t.ppf(par.sig_level, df=npre - 2)) * scale
+    lower, upper = est - cihw, est + cihw
+    if lower * upper < 0:
+      t_aa = None if (near(lower, 0.0) or near(upper, 0.0)) else True
+    else:
+      with np.errstate(all='ignore'):
+        true_mean = min(abs(lower), abs(upper))
+        tq = cihw / s1
+        ps = s1 * np.sqrt(1.0 / npre + 1.0 / nt)
+        prob = float(1 - stats.t.cdf(tq - true_mean / ps, df=npre - 2) + stats.t.cdf(-tq - true_mean / ps, df=npre - 2))
+      thr = proto._aa_threshold_prob
+      t_aa = None if (prob == prob and near(prob, thr)) or near(lower * upper, 0.0) else bool(prob <= thr)
+  return [t_corr, t_aa, t_bb, t_dw]
 
 
 def score_tuple(diag, budget_hi):
